@@ -253,6 +253,10 @@ def do_op(ch, f, fwd, frames):
     raise ValueError(f"unknown op {f!r}")
 
 
+
+import verbosity  # noqa: E402
+run_case = verbosity.wrap(run_case)   # one case in eight runs at Verbosity.CHANNEL
+
 if __name__ == "__main__":
     import sys
     for line in sys.stdin:
